@@ -214,6 +214,25 @@ Proof. intros c v H. exists c. split; [left; reflexivity | exact H]. Qed.
 
 End Proofs.
 
+(* ------------------------------------------------------------------ vm.addr *)
+
+(* the distinctness constraints exclude no input: whatever the key terms evaluate to (equal keys included),
+   they all hold when f_vmaddr is interpreted by an injective function and the remembered addresses are
+   the images of the remembered keys *)
+Lemma vmaddr_constraints_admit_every_input :
+  forall (V : Type) (f : Z -> Z) (known : list ((V -> Z) * (V -> Z))) (k : V -> Z) (v : V),
+    (forall x y, f x = f y -> x = y) ->
+    (forall ka, In ka known -> snd ka v = f (fst ka v)) ->
+    forall c, In c (vmaddr_constraints V f known k) -> c v = true.
+Proof.
+  intros V f known k v Hinj Hknown c Hin. unfold vmaddr_constraints in Hin.
+  apply in_map_iff in Hin. destruct Hin as [ka [Hc Hka]]. subst c.
+  assert (Hg : vmaddr_distinctness_guarded = true) by reflexivity. rewrite Hg.
+  rewrite (Hknown ka Hka).
+  destruct (k v =? fst ka v) eqn:E; [reflexivity|]. cbn [orb].
+  apply negb_true_iff. apply Z.eqb_neq. intros Hf. apply Hinj in Hf. apply Z.eqb_neq in E. contradiction.
+Qed.
+
 (* ------------------------------------------------------------------ what does NOT hold *)
 
 (* a valuation whose target IS the test contract is covered by no alternative (the candidates skip
